@@ -42,7 +42,7 @@ def _conform_chunk(chunk):
     return out
 
 
-def bfs(client, max_depth, max_states=None, conform_every=0, nproc=None, time_cap=None):
+def bfs(client, max_depth, max_states=None, conform_every=0, nproc=None, time_cap=None, conform_depth=2):
     """Returns dict(states, transitions, depth_completed, exhaustive, viol,
     errors, conformed, per_depth, samples)."""
     global _CLIENT
@@ -57,7 +57,7 @@ def bfs(client, max_depth, max_states=None, conform_every=0, nproc=None, time_ca
             frontier.append(st)
     res = {"states": len(seen), "transitions": 0, "depth_completed": 0, "exhaustive": False,
            "viol": [], "errors": [], "conformed": 0, "per_depth": [len(frontier)], "samples": [],
-           "capped": None}
+           "capped": None, "flags": {}}
     ctx = multiprocessing.get_context("fork")
     pool = ctx.Pool(nproc) if nproc > 1 else None
     conf_counter = 0
@@ -82,8 +82,10 @@ def bfs(client, max_depth, max_states=None, conform_every=0, nproc=None, time_ca
                         if key not in seen:
                             seen[key] = depth
                             nxt.append(newst)
+                            for fl in (newst.get("flags") or []) if isinstance(newst, dict) else []:
+                                res["flags"][fl] = res["flags"].get(fl, 0) + 1
                             conf_counter += 1
-                            if conform_every and (depth <= 2 or conf_counter % conform_every == 0):
+                            if conform_every and (depth <= conform_depth or conf_counter % conform_every == 0):
                                 to_conform.append(newst)
                             if len(res["samples"]) < 40 and conf_counter % 97 == 1:
                                 res["samples"].append(newst)
